@@ -65,6 +65,7 @@ type World struct {
 
 	// lister snapshot of the scan in progress
 	snapNodes []*v1.Node
+	objCache  map[string]cachedObj // informer-like identity of listed objects across scans
 	snapPods  []*v1.Pod
 	curIdx    int // index in Gorder of the group being scanned (-1 before the first)
 	// per group: lagging lister view (nil = none) and the order used by the current scan
@@ -331,7 +332,7 @@ func (w *World) MakeNode(g, id string, o NodeObj) *v1.Node {
 	if o.Cpu != 0 || o.Mem != 0 || h%2 == 0 {
 		n.Status.Allocatable = v1.ResourceList{
 			v1.ResourceCPU:    *resource.NewMilliQuantity(int64(o.Cpu)*CpuUnit, resource.DecimalSI),
-			v1.ResourceMemory: *resource.NewQuantity(int64(o.Mem)*MemUnit, resource.BinarySI),
+			v1.ResourceMemory: memQuantity(o.Mem, h),
 			v1.ResourcePods:   *resource.NewQuantity(110, resource.DecimalSI)}
 	} // else: allocatable missing altogether
 	return n
@@ -360,6 +361,18 @@ func (w *World) ProjectNode(n *v1.Node) NodeObj {
 	o.Cpu = int(n.Status.Allocatable.Cpu().MilliValue() / CpuUnit)
 	o.Mem = int(n.Status.Allocatable.Memory().Value() / MemUnit)
 	return o
+}
+
+// memQuantity: every other node reports its memory the way kubelets of fractional sizes do ("7.5Gi"), which the resource
+// package holds in its arbitrary-precision form instead of the int64 form
+func memQuantity(u int, h int) resource.Quantity {
+	if h%2 == 1 && u > 0 {
+		q, err := resource.ParseQuantity(strconv.FormatFloat(float64(u)/1024, 'f', -1, 64) + "Gi")
+		if err == nil && q.Value() == int64(u)*MemUnit {
+			return q
+		}
+	}
+	return *resource.NewQuantity(int64(u)*MemUnit, resource.BinarySI)
 }
 
 func qCpu(u int) resource.Quantity { return *resource.NewMilliQuantity(int64(u)*CpuUnit, resource.DecimalSI) }
@@ -748,6 +761,20 @@ func countKey(ts []v1.Taint, key string) (n int, first v1.Taint) {
 	return
 }
 
+// sameResources compares two resource lists by value (quantities in arbitrary-precision form print as pointers)
+func sameResources(a, b v1.ResourceList) bool {
+	if len(a) != len(b) {
+		return false
+	}
+	for k, qa := range a {
+		qb, ok := b[k]
+		if !ok || qa.Cmp(qb) != 0 {
+			return false
+		}
+	}
+	return true
+}
+
 // classifyUpdate compares the object sent in a PUT with the current API copy.
 // S = "<kind>:<effect>", A = instant written into the taint value, B = 1 iff nothing else changed.
 func (w *World) classifyUpdate(sent *v1.Node) Call {
@@ -763,7 +790,7 @@ func (w *World) classifyUpdate(sent *v1.Node) Call {
 	clean := taintBag(cur.Spec.Taints, TaintKey) == taintBag(sent.Spec.Taints, TaintKey) &&
 		fmt.Sprint(cur.Labels) == fmt.Sprint(sent.Labels) && fmt.Sprint(cur.Annotations) == fmt.Sprint(sent.Annotations) &&
 		cur.Spec.Unschedulable == sent.Spec.Unschedulable && cur.Spec.ProviderID == sent.Spec.ProviderID &&
-		fmt.Sprint(cur.Status.Allocatable) == fmt.Sprint(sent.Status.Allocatable) &&
+		sameResources(cur.Status.Allocatable, sent.Status.Allocatable) && sameResources(cur.Status.Capacity, sent.Status.Capacity) &&
 		cur.CreationTimestamp.Equal(&sent.CreationTimestamp) && cur.Name == sent.Name
 	switch {
 	case na == nb+1:
